@@ -14,7 +14,7 @@
 enum { PG_SPAWN, PG_ATTR, PG_DETACH, PG_MUTEX_STATIC, PG_COND, PG_BARRIER, PG_SPIN, PG_ONCE, PG_KEYS, PG_SELF, PG_EXIT, PG_MIX, PG_KEYS_ALL, PG_TRYLOCK, PG_RETCODES, PG_KEYS_MANY, PG_SLEEPS, PG_KEYS_SPARSE, PG_KEYS_CLEAR, PG_N };
 static const char * const pg_name[] = { "spawn tree (NULL attr)", "spawn with attribute objects (default-init, stack size)", "detached threads (attribute and pthread_detach)",
   "counter under a PTHREAD_MUTEX_INITIALIZER mutex first used by all threads at once", "condition-variable hand-off (static initialisers)", "barrier phases",
-  "spin-lock counter", "pthread_once", "keys with destructors", "pthread_self / pthread_equal", "pthread_exit from nested frames", "mixed: keys + mutex + yield + usleep(0)", "keys with destructors, every thread stores a value under every key", "trylock / timedlock on a mutex held by the creator", "return codes of init/destroy/attr/yield/sleep calls", "18 keys without destructors: a thread reads NULL under every key it has not stored under, also after storing under the neighbouring keys (4 threads one after the other, then concurrent ones)", "threads measure their own usleep(400000) and nanosleep(0.999999999 s): neither returns early", "70 keys, five destructor functions, every thread stores under a sparse set of keys (20, 37, 66, ...): each destructor sees exactly its own keys' values" };
+  "spin-lock counter", "pthread_once", "keys with destructors", "pthread_self / pthread_equal", "pthread_exit from nested frames", "mixed: keys + mutex + yield + usleep(0)", "keys with destructors, every thread stores a value under every key", "trylock / timedlock on a mutex held by the creator", "return codes of init/destroy/attr/yield/sleep calls", "18 keys without destructors: a thread reads NULL under every key it has not stored under, also after storing under the neighbouring keys (4 threads one after the other, then concurrent ones)", "threads measure their own usleep(400000) and nanosleep(0.999999999 s): neither returns early", "70 keys, five destructor functions, every thread stores under a sparse set of keys (20, 37, 66, ...): each destructor sees exactly its own keys' values", "keys with destructors: a thread stores a value and clears it again with pthread_setspecific(key, NULL) before it ends" };
 typedef struct { int pg, n, W, K; } prog_t;
 #define MAXP 200
 static prog_t P[2][MAXP]; static int NP[2];
